@@ -6,6 +6,7 @@ import (
 
 	cose "github.com/veraison/go-cose"
 
+	"verif/refcbor"
 	"verif/tape"
 )
 
@@ -232,10 +233,56 @@ func scenarioC19(r *Run) {
 		}
 		return true
 	}
+	verdicts := map[string]bool{} // (decoder, bytes) -> accepted
 	nops := 4 + t.Choose(13, "c19.nops")
 	interesting := false
 	for op := 0; op < nops; op++ {
-		switch t.Pick([]int{3, 6, 3, 2, 2}, "c19.op") {
+		switch t.Pick([]int{3, 6, 3, 2, 2, 1}, "c19.op") {
+		case 5: // CROSS: the same header map meets both bucket decoders
+			var cands []int
+			for i, it := range pool {
+				if it.dec == "ProtectedHeader" || it.dec == "UnprotectedHeader" {
+					cands = append(cands, i)
+				}
+			}
+			if len(cands) == 0 {
+				continue
+			}
+			item := pool[cands[t.Choose(len(cands), "c19.cross.src")]]
+			x := item.b
+			if item.dec == "ProtectedHeader" {
+				if it, perr := refcbor.ParseOne(x); perr == nil && it.Major == refcbor.MBstr && len(it.Data) > 0 {
+					x = it.Data
+				} else {
+					continue
+				}
+			}
+			bx := refcbor.Encode(refcbor.Bstr(x))
+			var pd, ud *Decoder
+			for i := range WireDecoders {
+				switch WireDecoders[i].Name {
+				case "ProtectedHeader":
+					pd = &WireDecoders[i]
+				case "UnprotectedHeader":
+					ud = &WireDecoders[i]
+				}
+			}
+			first, other, fin, oin := ud, pd, x, bx
+			if t.Bool(1, 2, "c19.cross.order") {
+				first, other, fin, oin = pd, ud, bx, x
+			}
+			var e1, e2 error
+			r.Lib(func() { e1 = first.Into(first.New(), append([]byte{}, fin...)) })
+			r.Lib(func() { other.Into(other.New(), append([]byte{}, oin...)) })
+			r.Lib(func() { e2 = first.Into(first.New(), append([]byte{}, fin...)) })
+			r.Op("CROSS", "%s, then %s, then %s again on one header map (%dB)", first.Name, other.Name, first.Name, len(x))
+			r.Fired("decode.same-map-in-both-buckets")
+			r.Check()
+			if (e1 == nil) != (e2 == nil) {
+				r.Fail("decode-verdict-changes-over-time/"+first.Name+"/after-other-bucket", "%s.UnmarshalCBOR judged the same bytes differently after %s had decoded the same header map (accepted before: %v, now: %v)\nmap: %s", first.Name, other.Name, e1 == nil, e2 == nil, hexShort(x))
+				return
+			}
+			interesting = true
 		case 0: // LOAD
 			bi := t.Choose(3, "c19.buf")
 			item := pool[t.Choose(len(pool), "c19.src")]
@@ -274,9 +321,33 @@ func scenarioC19(r *Run) {
 			}
 			before := Snapshot(d.val)
 			input := loaded[bi]
+			if d.dec.Name == "UnprotectedHeader" && t.Bool(1, 2, "c19.unwrap") {
+				// the content of a protected bucket (a map inside a byte
+				// string) offered to the unprotected-bucket decoder as it is,
+				// and the other way round below: the same map bytes meet both
+				// bucket decoders in one process
+				if it, perr := refcbor.ParseOne(input); perr == nil && it.Major == refcbor.MBstr && len(it.Data) > 0 {
+					input = append(bufs[bi][:0], it.Data...)
+					bufs[bi], loaded[bi] = input, input
+				}
+			} else if d.dec.Name == "ProtectedHeader" && t.Bool(1, 3, "c19.wrap") {
+				if it, perr := refcbor.ParseOne(input); perr == nil && it.Major == refcbor.MMap {
+					wrapped := refcbor.Encode(refcbor.Bstr(input))
+					input = append(bufs[bi][:0], wrapped...)
+					bufs[bi], loaded[bi] = input, input
+				}
+			}
 			pristine := append([]byte{}, input...)
 			var err error
 			r.Lib(func() { err = d.dec.Into(d.val, input) })
+			// one decoder, one byte string, one verdict - today and later
+			vk := d.dec.Name + "/" + string(pristine)
+			if prev, seen := verdicts[vk]; seen && prev != (err == nil) {
+				r.Check()
+				r.Fail("decode-verdict-changes-over-time/"+d.dec.Name, "%s.UnmarshalCBOR judged the same bytes differently than earlier in this process (accepted before: %v, accepted now: %v)\ninput: %s", d.dec.Name, prev, err == nil, hexShort(pristine))
+				return
+			}
+			verdicts[vk] = err == nil
 			r.Op("DECODE", "%s <- buffer %d (%dB): %s", d.dec.Name, bi, len(input), errTag(err))
 			if err == nil {
 				if d.decodes > 0 || d.failures > 0 {
